@@ -996,6 +996,12 @@ def sha3_cases():
             want = int.from_bytes(keccak(d), "big")
             rz = r.as_z3() if hasattr(r, "as_z3") else r
             ctx.oblige(f"sha3_data[{len(d)} concrete bytes] is the real keccak256", z3.simplify(rz) == z3.BitVecVal(want, 256))
+            if 0 < len(d) <= 128:
+                # up to 128 bytes the hash is tracked: its value can be traced back to the preimage (storage locations
+                # written as a runtime hash of concrete data and as the folded constant are the same location)
+                back = ex.sha3s.reverse_lookup(want)
+                ok_back = back is not None and z3.is_app(back) and back.decl().name() == f"f_sha3_{8 * len(d)}" and z3.simplify(back.arg(0)).as_long() == int.from_bytes(d, "big")
+                ctx.oblige(f"sha3_data[{len(d)} concrete bytes]: the hash value is registered and traces back to exactly this preimage", z3.BoolVal(bool(ok_back)), info={"back": str(back)[:80]})
             for c in list(ex.path.conditions)[n0:]:
                 sc = str(c)
                 if "f_inv" in sc:
@@ -1039,6 +1045,46 @@ def replay_create2_magic(r):
     if gotb != want:
         return {"reproduced": True, "detail": f"a program hashing the 85 concrete bytes ff 00 01 .. 53 returns {gotb.hex() if gotb else got} in halmos; the EVM returns keccak256 = {want.hex()} (halmos substitutes a synthetic CREATE2 address for every 85-byte preimage starting with 0xff)", "inputs": "SHA3 over 85 bytes 0xff ++ 00..53"}
     return {"reproduced": False, "detail": "the returned word is the real keccak256"}
+
+
+# ---------------------------------------------------------------------------------------
+# the return data buffer (RETURNDATASIZE / RETURNDATACOPY read it): EIP-211 and EIP-140
+
+
+def returndata_cases():
+    from halmos.exceptions import Revert
+
+    out = []
+    scenarios = {
+        "no sub-call yet": (None, None, None, "empty"),
+        "CALL that returned data": (hs.OP_CALL if hasattr(hs, "OP_CALL") else 0xF1, b"\x01\x02\x03", None, "data"),
+        "CALL that reverted with data": (0xF1, b"\x08\xc3\x79\xa0", Revert(), "data"),
+        "STATICCALL that returned data": (0xFA, b"\x07", None, "data"),
+        "CREATE that succeeded (returned the runtime code)": (hs.OP_CREATE, b"\x60\x00", None, "empty"),
+        "CREATE whose constructor reverted with data": (hs.OP_CREATE, b"\x08\xc3\x79\xa0\x11", Revert(), "data"),
+        "CREATE2 whose constructor reverted with data": (hs.OP_CREATE2, b"\x99", Revert(), "data"),
+        "CREATE2 that succeeded": (hs.OP_CREATE2, b"\x00", None, "empty"),
+    }
+    for name, (scheme, data, err, want) in scenarios.items():
+
+        def harness(interp, scheme=scheme, data=data, err=err, want=want):
+            ctx = interp.ctx
+            sevm = mk_sevm()
+            ex = mk_ex(sevm, b"\x00")
+            if scheme is not None:
+                sub = hs.CallContext(message=hs.Message(target=THIS, caller=CALLER, origin=ORIGIN, value=0, data=ByteVec(), call_scheme=scheme))
+                sub.output.data = ByteVec(data)
+                sub.output.error = err
+                ex.context.trace.append(sub)
+            r = interp.call(hs.Exec.__dict__["returndata"], [ex], {})
+            n = interp.call(hs.Exec.__dict__["returndatasize"], [ex], {})
+            if want == "empty":
+                ctx.oblige("the return data buffer is empty (no sub-call yet, or a successful creation)", z3.BoolVal(r is not None and len(r) == 0 and n == 0))
+            else:
+                ctx.oblige("the return data buffer holds the output of the last sub-call (returned or reverted data; after a failed creation the constructor's revert data)", z3.BoolVal(r is not None and r.unwrap() == data and n == len(data)), info={"got": str(r)[:80]})
+
+        out.append(Case(f"{PROP}/sevm.Exec.returndata", name, harness, sources=("halmos.sevm:Exec.returndata", "halmos.sevm:Exec.returndatasize", "halmos.sevm:CallContext.last_subcall")))
+    return out
 
 
 # ---------------------------------------------------------------------------------------
@@ -1463,9 +1509,13 @@ def build_cases(tier="quick"):
     ref = []
     for c in c02.path_cases():
         ref.append(Case(f"{PROP}/" + c.unit.split("/", 1)[1] + "#fork-ownership", c.case, c.harness, replay=c.replay, sources=c.sources))
+    from contracts import c06
+
+    for c in c06.run_arm_cases():
+        ref.append(Case(f"{PROP}/" + c.unit.split("/", 1)[1] + "#word-instruction", c.case, c.harness, replay=c.replay, contracts=c.contracts, sources=c.sources))
     for c in c09.callback_cases() + c09.create_cases():
         ref.append(Case(f"{PROP}/" + c.unit.split("/", 1)[1] + "#frame-end", c.case, c.harness, replay=c.replay, sources=c.sources))
-    return stack_cases() + limit_cases() + env_cases() + memory_cases() + halt_cases() + sha3_cases() + ext_cases() + deviation_cases() + ref
+    return stack_cases() + limit_cases() + env_cases() + memory_cases() + halt_cases() + sha3_cases() + returndata_cases() + ext_cases() + deviation_cases() + ref
 
 
 ASSUMPTIONS = [
